@@ -342,6 +342,40 @@ var c19TypeTemplates = []struct {
 	{"SELECT id, CONCAT(s, SUBSTR(s, a, 1)) AS x FROM t", "type_function_arg", "t", "a", false, false},
 }
 
+// every arithmetic, bitwise and logical operator and the built-ins that need a particular kind of value,
+// in the select list and in WHERE, over a column one row of which holds an object instead
+func init() {
+	add := func(name, e, col string, where string) {
+		c19TypeTemplates = append(c19TypeTemplates, struct {
+			q, shape, table, col string
+			nested               bool
+			scalar               bool
+		}{fmt.Sprintf("SELECT id, %s AS x FROM t", e), "type_op_" + name, "t", col, false, false})
+		if where != "" {
+			c19TypeTemplates = append(c19TypeTemplates, struct {
+				q, shape, table, col string
+				nested               bool
+				scalar               bool
+			}{"SELECT id FROM t WHERE " + where, "type_op_" + name + "_where", "t", col, false, false})
+		}
+	}
+	for _, o := range []struct{ name, e string }{{"neg", "-a"}, {"tilde", "~a"}, {"bitand", "a & 1"}, {"bitor", "a | 1"}, {"bitxor", "a ^ 1"}, {"shl", "a << 1"}, {"shr", "a >> 1"},
+		{"div", "a DIV 2"}, {"fdiv", "a / 2"}, {"mul", "a * 2"}, {"sub_r", "1 - a"}, {"mod", "a % 3"}, {"add_l", "a + id"}, {"add_r", "id + a"}} {
+		add(o.name, o.e, "a", o.e+" > -100000")
+	}
+	for _, o := range []struct{ name, e string }{{"not", "NOT f"}, {"bang", "!f"}, {"and", "f AND TRUE"}, {"or", "FALSE OR f"}, {"if", "IF(f, 1, 0)"}} {
+		w := o.e
+		if o.name == "if" {
+			w = "IF(f, 1, 0) = 1"
+		}
+		add(o.name, o.e, "f", w)
+	}
+	add("to_upper", "TO_UPPER(s)", "s", "TO_UPPER(s) = 'X'")
+	add("first", "FIRST(tags)", "tags", "")
+	add("last", "LAST(tags)", "tags", "")
+	add("unwind", "UNWIND(tags)", "tags", "")
+}
+
 // queries that fail for a reason that is neither a stub fault nor data: an
 // unparsable selector text, an unknown function, a malformed path. The failed
 // query must not leave anything behind (a held lock, a poisoned cache entry).
@@ -361,6 +395,45 @@ var c19StaticErrorQueries = []string{
 	"SELECT id FROM t WHERE a BETWEEN 1 AND nosuchfunction(2)",
 	"SELECT id FROM t WHERE id IN (1, nosuchfunction(2))",
 	"SELECT * FROM t x JOIN u y ON x.`id[first]` = y.id",
+	"SELECT * FROM (SELECT id, nosuchfunction(a) AS x FROM t) d",
+	"WITH c AS (SELECT id, nosuchfunction(a) AS x FROM t) SELECT * FROM c",
+	"SELECT id FROM u UNION ALL SELECT nosuchfunction(id) AS id FROM t",
+	"SELECT id, CASE WHEN id > 0 THEN nosuchfunction(a) ELSE 0 END AS x FROM t",
+	"SELECT id, 1 + nosuchfunction(a) AS x FROM t",
+	"SELECT id, ASYNC.nosuchfunction(a) AS x FROM t",
+	"SELECT id, ASYNC.fx(1, nosuchfunction(a)) AS x FROM t",
+	"SELECT id, ASYNC.RAISE_WHEN(id = 1, 'boom') FROM t",
+	"SELECT id, Async.Raise_When(id = 1, 'boom') FROM t",
+	"SELECT id, SPIN.RAISE('boom') FROM t",
+	"SELECT id, SpinAsync.Raise('boom') FROM t",
+	"SELECT id, async.raise_when(id = 1, 'boom') FROM t",
+	"SELECT id, a FROM t ORDER BY a + 1",
+	"SELECT id, (SELECT id FROM `<-t` ORDER BY a + 1) AS sub FROM t",
+}
+
+// c19CertainFailures: statically failing queries whose failing step is certain to be evaluated whenever t has a row
+// (an unknown function or an unparsable selector in the select list, WHERE, HAVING, a CTE body, a derived table, a
+// union branch or the argument of a background call): for these a success is a swallowed error
+var c19CertainFailures = map[string]bool{
+	"SELECT id, `tags[(0:1:2)]` AS x FROM t":                                    true,
+	"SELECT id, nosuchfunction(a) AS x FROM t":                                  true,
+	"SELECT s, COUNT(*) AS c FROM t GROUP BY s HAVING nosuchfunction(1) = 1":    true,
+	"SELECT id FROM t WHERE a BETWEEN 1 AND nosuchfunction(2)":                  true,
+	"SELECT id FROM t WHERE id IN (1, nosuchfunction(2))":                       true,
+	"SELECT * FROM (SELECT id, nosuchfunction(a) AS x FROM t) d":                true,
+	"WITH c AS (SELECT id, nosuchfunction(a) AS x FROM t) SELECT * FROM c":      true,
+	"SELECT id FROM u UNION ALL SELECT nosuchfunction(id) AS id FROM t":         true,
+	"SELECT id, CASE WHEN id > 0 THEN nosuchfunction(a) ELSE 0 END AS x FROM t": true,
+	"SELECT id, 1 + nosuchfunction(a) AS x FROM t":                              true,
+	"SELECT id, ASYNC.nosuchfunction(a) AS x FROM t":                            true,
+	"SELECT id, ASYNC.fx(1, nosuchfunction(a)) AS x FROM t":                     true,
+	// RAISE cannot be detached from the query: however the qualifier and the name are spelled, the
+	// query fails (by refusing the qualifier or by raising), it never reports the error to the side
+	"SELECT id, ASYNC.RAISE_WHEN(id = 1, 'boom') FROM t": true,
+	"SELECT id, Async.Raise_When(id = 1, 'boom') FROM t": true,
+	"SELECT id, SPIN.RAISE('boom') FROM t":               true,
+	"SELECT id, SpinAsync.Raise('boom') FROM t":          true,
+	"SELECT id, async.raise_when(id = 1, 'boom') FROM t": true,
 }
 
 func evalC19Static(b *Bundle, r *Runner, exp *c19Expect) []*Violation {
@@ -376,8 +449,17 @@ func evalC19Static(b *Bundle, r *Runner, exp *c19Expect) []*Violation {
 		return nil
 	}
 	if !failed(&o.Ops[0]) && o.Ops[0].Panic == "" {
+		if c19CertainFailures[exp.FQ.Query] {
+			return []*Violation{mkViolation(b, "ERROR_SWALLOWED", "shape:static_error", fmt.Sprintf("%s: New/Exec reported success; rows=%s", what, compact(o.Ops[0].Rows)), o)}
+		}
 		r.Stats.probe("static_error_query_succeeded_skipped")
 		return nil
+	}
+	if c19CertainFailures[exp.FQ.Query] {
+		if v := judgeFailed(b, o, &o.Ops[0], what); v != nil {
+			return []*Violation{v}
+		}
+		r.Stats.probe("static_error_certain_failure_judged")
 	}
 	r.Stats.probe("static_error_fault")
 	alone := c
@@ -496,6 +578,36 @@ func corpusC19() []*Bundle {
 		exp := c19Expect{Mode: "stub", FollowUp: followUps[i%len(followUps)], FQ: faultQuery{Query: s.q, Sites: sites, Shape: "corpus_" + s.pos, Positions: pos, OrderOpen: strings.Contains(s.q, "GROUP") || strings.Contains(s.q, "JOIN")}}
 		out = append(out, &Bundle{Prop: "C19", Kind: "corpus", Case: mkCase(s.q), Expect: mustJSON(exp), Tags: []string{"corpus", "mode:stub", "shape:corpus_" + s.pos, "pos:" + s.pos}})
 	}
+	// every expression context x {select list, WHERE, HAVING, derived table}: the operator, predicate, CASE arm or
+	// built-in the failing call sits under must hand its failure on
+	n := 0
+	addCtx := func(q, pos string) {
+		n++
+		exp := c19Expect{Mode: "stub", FollowUp: followUps[n%len(followUps)], FQ: faultQuery{Query: q, Sites: []int{1}, Shape: "corpus_" + pos, Positions: []string{pos}, OrderOpen: strings.Contains(q, "GROUP")}}
+		out = append(out, &Bundle{Prop: "C19", Kind: "corpus", Case: mkCase(q), Expect: mustJSON(exp), Tags: []string{"corpus", "mode:stub", "shape:corpus_" + pos, "pos:" + pos}})
+	}
+	for _, c := range exprContexts {
+		col := ctxColumn(c.arg, func(xs []string) string { return xs[0] })
+		e := c.ctxSQL("", 1, 9, col)
+		pos := "under_" + c.name
+		if strings.HasPrefix(c.tpl, "SPIN") {
+			addCtx(fmt.Sprintf("SELECT id, %s FROM t", e), pos)
+			continue
+		}
+		addCtx(fmt.Sprintf("SELECT id, %s AS x FROM t", e), pos)
+		addCtx(fmt.Sprintf("SELECT * FROM (SELECT id, %s AS x FROM t) d", e), pos+"_in_derived_table")
+		addCtx(fmt.Sprintf("SELECT id, (SELECT %s AS y FROM n) AS sub FROM t", c.ctxSQL("", 1, 9, map[string]string{"num": "v", "str": "w", "bool": "v"}[c.arg])), pos+"_in_subquery")
+		if c.boolean {
+			addCtx(fmt.Sprintf("SELECT id FROM t WHERE %s", e), pos+"_in_where")
+			if c.arg == "num" {
+				addCtx(fmt.Sprintf("SELECT s, COUNT(*) AS c FROM t GROUP BY s HAVING %s", c.ctxSQL("", 1, 9, "COUNT(*)")), pos+"_in_having")
+			}
+		}
+	}
+	for i, q := range c19StaticErrorQueries {
+		exp := c19Expect{Mode: "static_error", FollowUp: followUps[i%len(followUps)], FQ: faultQuery{Query: q, Shape: "static_error"}}
+		out = append(out, &Bundle{Prop: "C19", Kind: "corpus", Case: mkCase(q), Expect: mustJSON(exp), Tags: []string{"corpus", "mode:static_error", "shape:static_error"}})
+	}
 	for i, tpl := range c19RaiseTemplates {
 		exp := c19Expect{Mode: "raise", FollowUp: followUps[i%len(followUps)], FQ: faultQuery{Query: tpl.q, Shape: tpl.shape}, NRows: 3}
 		out = append(out, &Bundle{Prop: "C19", Kind: "corpus", Case: mkCase(tpl.q), Expect: mustJSON(exp), Tags: []string{"corpus", "mode:raise", "shape:" + tpl.shape}})
@@ -510,7 +622,7 @@ func corpusC19() []*Bundle {
 func init() {
 	register(&Property{
 		ID: "C19", Plain: true, Level: "fault_enumeration",
-		Rule:   "fixed corpus: a fault-injecting identity stub / RAISE / RAISE_WHEN / a wrongly-typed value in every synchronously evaluated clause position (WHERE, select list, function argument, CASE, HAVING, CTE body and chain, derived table, row-scoped subquery, IN subquery, EXISTS, union branch, join ON, arithmetic, DISTINCT/ORDER/LIMIT) x EVERY invocation index k = 1..N (N measured by a fault-free run) resp. every row j — exhaustive for the corpus; plus rapid-generated queries (1-4 fault sites) again exhaustive in k per query; each faulted run is [failing query, follow-up query, fault-free repeat] in one process; non-trivial = a fault actually fired; distinct = distinct case-file hash",
+		Rule:   "fixed corpus: a fault-injecting identity stub / RAISE / RAISE_WHEN / a wrongly-typed value in every synchronously evaluated clause position (WHERE, select list, function argument, CASE, HAVING, CTE body and chain, derived table, row-scoped subquery, IN subquery, EXISTS, union branch, join ON, arithmetic, DISTINCT/ORDER/LIMIT) x EVERY invocation index k = 1..N (N measured by a fault-free run) resp. every row j — exhaustive for the corpus; plus rapid-generated queries (1-4 fault sites) again exhaustive in k per query; each faulted run is [failing query, follow-up query, fault-free repeat] in one process; non-trivial = a fault actually fired; distinct = distinct case-file hash; the corpus also nests the failing call under each of 60 expression contexts (every arithmetic/bitwise/shift/comparison/logical operator on either side, BETWEEN point and bounds, IN/NOT IN value and element, IS, LIKE value and pattern, CASE condition/THEN/ELSE/second WHEN, IF arms, built-ins, tuple, SCOPED qualifier, argument of an ASYNC/SPINASYNC call) x {select list, derived table, row-scoped subquery, WHERE, HAVING} and a wrongly typed operand under every operator; statically failing queries whose failing step is certain to be evaluated (unknown function / unparsable selector in the select list, WHERE, HAVING, CTE, derived table, union branch, CASE arm, argument of a background call) must fail",
 		Corpus: corpusC19, Gen: genC19, Eval: evalC19, QuickChecks: 150,
 		Assumptions: []string{
 			"faults enter through the user-function seam (error return at the k-th call), RAISE/RAISE_WHEN and wrongly typed data; ASYNC/SPIN-qualified calls are excluded (the statement is about synchronous steps)",
